@@ -395,6 +395,8 @@ type Universe struct {
 	sortOwner map[string]int // symbol (sort name, ctor, selector) -> index into sortDecls
 	// axioms attached to function symbols: emitted when the symbol is used
 	axioms map[string][]string
+	// abstractStrings: rewrite every query with opaque strings (strabs_coord.go; root contract flag `opaque_strings`)
+	abstractStrings bool
 }
 
 func NewUniverse() *Universe {
@@ -658,6 +660,9 @@ func (u *Universe) Query(assumes []Term, goal Term, getValues []Term) string {
 		}
 		b.WriteString("))\n")
 	}
+	if u.abstractStrings {
+		return abstractStrings(b.String())
+	}
 	return b.String()
 }
 
@@ -761,6 +766,14 @@ func solveRace(workdir, name, query string, timeoutSec int, useSolvers []string)
 			out, _ := cmd.CombinedOutput()
 			r := SolverResult{Solver: sp.name, Output: string(out), Secs: time.Since(t0).Seconds()}
 			first := strings.TrimSpace(strings.SplitN(string(out), "\n", 2)[0])
+			for strings.HasPrefix(first, "WARNING:") { // e.g. "'if' cannot be used in patterns": the solver drops that pattern and goes on
+				rest := strings.SplitN(string(out), "\n", 2)
+				if len(rest) < 2 {
+					break
+				}
+				out = []byte(rest[1])
+				first = strings.TrimSpace(strings.SplitN(string(out), "\n", 2)[0])
+			}
 			switch {
 			case first == "unsat":
 				r.Status = "unsat"
